@@ -12,7 +12,10 @@ import re
 
 from engine.facts import operand_local
 
-BORROW_RE = re.compile(r"core::cell::RefCell(<.*>)?::(borrow_mut|borrow|try_borrow_mut|try_borrow)$")
+# RefCell borrows, and guards of *real* std locks (the wrappers keep some bookkeeping under std::sync::Mutex: a second task scheduled
+# while such a guard is held would block the one OS thread all tasks run on)
+BORROW_RE = re.compile(r"core::cell::RefCell(<.*>)?::(borrow_mut|borrow|try_borrow_mut|try_borrow)$|"
+                       r"^std::sync::(poison::)?(mutex::Mutex|rwlock::RwLock)(<.*>)?::(lock|try_lock|read|write|try_read|try_write)$")
 
 
 def _guard_locals(body, g0):
@@ -77,3 +80,29 @@ def held_across_yield(prog, body, may_switch):
                 seen_y.add(x)
                 out.append((s, x, sorted(cs)[0]))
     return out
+
+
+def rule_no_guard_across_choice_point(ctx, rule, crates, table, floor):
+    """One obligation per function of `crates` that takes a RefCell borrow / std lock guard: no may-switch call while it is alive."""
+    from engine import kinds
+    prog = ctx.prog
+    may_switch = kinds.may_reach_set(prog, {kinds.SWITCH})
+    nb = 0
+    for b in prog.all_bodies(crates):
+        if "::tests::" in b.nkey or "::test::" in b.nkey:
+            continue
+        sites = [s for s, t in b.calls() if any(BORROW_RE.search(c) for c in b.callees_of_call(t, passed=False))]
+        if not sites:
+            continue
+        nb += len(sites)
+        root = kinds.root_fn(prog, b.nkey)
+        if root in table:
+            ctx.ob(rule, "borrow-table|" + root, True, "`%s` is a table entry: %s" % (root, table[root]), loc=b.loc(), nontrivial=False)
+            continue
+        bad = held_across_yield(prog, b, may_switch)
+        ctx.ob(rule, "no-borrow-across-choice-point|" + b.nkey, not bad,
+               "`%s`: no RefCell borrow / std lock guard is alive at a call that may reach a choice point (%d site(s))" % (b.nkey, len(sites)) if not bad else
+               "`%s` keeps the borrow / guard taken at %s alive across `%s` at %s, which may reach thread::switch: a task scheduled there panics with "
+               "`already borrowed` (or blocks the only OS thread) on its next operation on the same object" % (b.nkey, b.loc(bad[0][0]), bad[0][2], b.loc(bad[0][1])),
+               loc=b.loc(bad[0][1]) if bad else b.loc())
+    ctx.floor(rule, "borrow / guard sites examined", nb, floor)
